@@ -9,6 +9,7 @@ package main
 // greatest fixed point over the region reachable from a stated entry point.
 
 import (
+	"os"
 	"strconv"
 	"fmt"
 	"go/constant"
@@ -301,6 +302,8 @@ type Flow struct {
 	// constant.
 	phiGen  map[*ssa.BasicBlock][]phiIn
 	edgeSt  map[[2]*ssa.BasicBlock]AtomSet
+	// ctxDyn: non-nil facts about the objects handed to a function, holding at every in-region call site, in the callee's names
+	ctxDyn map[*ssa.Function][]Atom
 	// dyn: kind ("err"|"true"|"false") -> function -> result index -> parametric facts
 	dyn map[string]map[*ssa.Function]map[int][]Atom
 	mcache  map[*ssa.Function]*Matcher
@@ -333,7 +336,7 @@ func NewFlow(p *Prog, rs *RuleSet, roots []*ssa.Function, skip func(*ssa.Functio
 		in: map[*ssa.BasicBlock]AtomSet{}, gen: map[*ssa.BasicBlock][2][]Atom{}, genSum: map[*ssa.BasicBlock][2][]sumRef{},
 		exec: map[ssa.Instruction][]Atom{}, kill: map[ssa.Instruction][]Atom{}, mcache: map[*ssa.Function]*Matcher{},
 		phiGen: map[*ssa.BasicBlock][]phiIn{}, edgeSt: map[[2]*ssa.BasicBlock]AtomSet{},
-		dyn: map[string]map[*ssa.Function]map[int][]Atom{"err": {}, "true": {}, "false": {}}}
+		dyn: map[string]map[*ssa.Function]map[int][]Atom{"err": {}, "true": {}, "false": {}}, ctxDyn: map[*ssa.Function][]Atom{}}
 	f.Region = p.Reachable(roots, func(fn *ssa.Function) bool {
 		if fn.Pkg != nil && isHarnessPkg(fn.Pkg.Pkg.Path()) {
 			return true
@@ -742,6 +745,9 @@ func (f *Flow) isRoot(fn *ssa.Function) bool {
 
 func (f *Flow) runFunc(fn *ssa.Function) {
 	entry := f.ctx[fn]
+	if dynIn := f.ctxDyn[fn]; len(dynIn) > 0 && !entry.top {
+		entry = entry.with(dynIn...)
+	}
 	for _, b := range fn.Blocks {
 		if b == fn.Recover {
 			continue
@@ -848,7 +854,7 @@ func provablyNonNil(p *Prog, v ssa.Value, s AtomSet, depth int) bool {
 		}
 	case *ssa.UnOp:
 		if v.Op == token.MUL {
-			if g, ok := v.X.(*ssa.Global); ok && isErrorType(v.Type()) && strings.HasPrefix(g.Name(), "Err") {
+			if g, ok := v.X.(*ssa.Global); ok && isErrorType(v.Type()) && (strings.HasPrefix(g.Name(), "Err") || g.Name() == "EOF") {
 				return true // package-level sentinel error
 			}
 		}
@@ -1028,6 +1034,27 @@ func (f *Flow) solve() {
 				f.ctx[fn] = acc
 				changed = true
 			}
+			if f.RS.hasDyn() {
+				var din map[Atom]bool
+				first := true
+				for _, e := range cg.in[fn] {
+					if !f.Region[e.Caller] {
+						continue
+					}
+					call, isCall := e.Site.(ssa.CallInstruction)
+					if !isCall || (e.Kind != "static" && e.Kind != "invoke") {
+						din, first = map[Atom]bool{}, false
+						break
+					}
+					din = meetFacts(din, first, argFacts(f.StateAt(e.Site), call, fn))
+					first = false
+				}
+				l := sortedFacts(din)
+				if !sameFacts(l, f.ctxDyn[fn]) {
+					f.ctxDyn[fn] = l
+					changed = true
+				}
+			}
 		}
 		if !changed {
 			break
@@ -1176,6 +1203,18 @@ func translateDyn(dyn []Atom, call ssa.CallInstruction) []Atom {
 					break
 				}
 				parts[k] = canon(ops[i])
+			} else if strings.HasPrefix(c, "*$") {
+				dot := strings.Index(c, ".")
+				if dot < 0 {
+					ok = false
+					break
+				}
+				i, err := strconv.Atoi(c[2:dot])
+				if err != nil || i >= len(ops) {
+					ok = false
+					break
+				}
+				parts[k] = "*" + canonAddr(ops[i]) + c[dot:]
 			}
 		}
 		if ok {
@@ -1211,6 +1250,18 @@ func paramFacts(fn *ssa.Function, s AtomSet) map[Atom]bool {
 				parts[k] = "$" + strconv.Itoa(i)
 				any = true
 				continue
+			}
+			// a location reached through a pointer parameter: *p.f1, *p.f1.f0 ...
+			if strings.HasPrefix(c, "*") {
+				if dot := strings.Index(c, "."); dot > 1 {
+					if i, isParam := idx[c[1:dot]]; isParam {
+						if _, isPtr := fn.Params[i].Type().Underlying().(*types.Pointer); isPtr {
+							parts[k] = "*$" + strconv.Itoa(i) + c[dot:]
+							any = true
+							continue
+						}
+					}
+				}
 			}
 			if _, err := strconv.ParseInt(c, 10, 64); err == nil {
 				continue
@@ -1283,6 +1334,9 @@ func (f *Flow) summarizeDyn(fn *ssa.Function) bool {
 			var acc map[Atom]bool
 			first := true
 			for _, sr := range f.successReturns(fn, i) {
+				if os.Getenv("FDOCHECK_DEBUG_DYN") != "" && strings.Contains(f.P.FuncName(fn), os.Getenv("FDOCHECK_DEBUG_DYN")) {
+					fmt.Printf("DYN %s success return @%s state=%v facts=%v\n", f.P.FuncName(fn), f.P.instrPos(sr.Ret), sr.State.list(), sortedFacts(paramFacts(fn, sr.State)))
+				}
 				acc = meetFacts(acc, first, paramFacts(fn, sr.State))
 				first = false
 			}
@@ -1362,4 +1416,68 @@ func (rs *RuleSet) hasDyn() bool {
 		}
 	}
 	return false
+}
+
+// argFacts renames the caller's non-nil facts about locations inside the
+// objects it passes (by pointer, or as a struct by value) into the callee's
+// names: `s.Payload != nil` established before `s.helper()` holds for the
+// receiver inside helper.
+func argFacts(st AtomSet, call ssa.CallInstruction, callee *ssa.Function) map[Atom]bool {
+	out := map[Atom]bool{}
+	if st.top {
+		return out
+	}
+	ops := callOperands(call.Common())
+	for i, a := range ops {
+		if i >= len(callee.Params) {
+			break
+		}
+		prm := callee.Params[i]
+		var from, to string
+		if u, ok := a.(*ssa.UnOp); ok && u.Op == token.MUL {
+			// struct passed by value: the callee works on a copy kept in its spill slot
+			if _, isStruct := prm.Type().Underlying().(*types.Struct); isStruct {
+				if slot := paramSlot(callee, prm); slot != nil {
+					from, to = "*"+canonAddr(u.X), "*"+slot.Name()
+				}
+			}
+		}
+		if from == "" {
+			if _, isPtr := prm.Type().Underlying().(*types.Pointer); isPtr {
+				from, to = "*"+canonAddr(a), "*"+prm.Name()
+				if slot := paramSlot(callee, prm); slot != nil {
+					to = "*(*" + slot.Name() + ")"
+				}
+			}
+		}
+		if from == "" {
+			continue
+		}
+		for f := range st.m {
+			if !strings.HasPrefix(f, "v:nn:") {
+				continue
+			}
+			loc := f[len("v:nn:"):]
+			if strings.HasPrefix(loc, from+".") {
+				out[Atom("v:nn:"+to+loc[len(from):])] = true
+			}
+		}
+	}
+	return out
+}
+
+// paramSlot: the entry-block alloc a parameter is spilled into (when its
+// address is taken or it is captured), or nil.
+func paramSlot(fn *ssa.Function, prm *ssa.Parameter) *ssa.Alloc {
+	if len(fn.Blocks) == 0 {
+		return nil
+	}
+	for _, in := range fn.Blocks[0].Instrs {
+		if st, ok := in.(*ssa.Store); ok && st.Val == ssa.Value(prm) {
+			if al, ok := st.Addr.(*ssa.Alloc); ok {
+				return al
+			}
+		}
+	}
+	return nil
 }
